@@ -49,6 +49,8 @@ class Model:
         self.timer: dict[int, dict] = {}
         self.err_latest: dict[int, object] = {}
         self.err_since_zero: dict[int, object] = {}
+        self.err_admissible: dict[int, set] = {}
+        self.err_text_while_clear: dict[int, bool] = {}
         self.version = {"update": inst["update"], "versions": list(inst["versions"])}
         self.acs = {a["ac"]: a for a in inst["acs"]}
         self.zone_names = {z["zone"]: z["name"] for z in inst["zones"]}
@@ -62,6 +64,13 @@ class Model:
                 if a["ac"] in self.acs:
                     self.ac_status[a["ac"]] = a
                     if a["error"] == 0:
+                        # a report without error code ends the error episode: its description must not
+                        # survive into the next one.  Only a text frame that arrived while the AC was
+                        # error free may legitimately survive an identical repeat of that report.
+                        if self.err_text_while_clear.get(a["ac"]):
+                            self.err_admissible[a["ac"]] = {None, self.err_latest.get(a["ac"])}
+                        else:
+                            self.err_admissible[a["ac"]] = {None}
                         self.err_since_zero[a["ac"]] = None
         elif k in ("group_status", "zone_status"):
             for z in r.get("groups", r.get("zones", [])):
@@ -76,6 +85,9 @@ class Model:
             if r["ac"] in self.acs:
                 self.err_latest[r["ac"]] = r["text"]
                 self.err_since_zero[r["ac"]] = r["text"]
+                self.err_admissible[r["ac"]] = {r["text"]}
+                st = self.ac_status.get(r["ac"])
+                self.err_text_while_clear[r["ac"]] = st is not None and st["error"] == 0
         elif k == "version":
             self.version = {"update": r["update"], "versions": list(r["versions"])}
 
@@ -131,7 +143,7 @@ class Model:
                 if st["error"] == 0:
                     e["error_info"] = {None}
                 else:
-                    descs = {self.err_since_zero.get(ac), self.err_latest.get(ac)}
+                    descs = self.err_admissible.get(ac, {None})
                     e["error_info"] = {("err", st["error"], d) for d in descs}
             t = self.timer.get(ac)
             if t is not None:
